@@ -273,6 +273,20 @@ fn law(name: &str, e: &str, args: &[&str]) -> Option<String> {
             let m2 = entry(e, p1, q1 + q2) == entry(e, p1, q1) * entry(e, p1, q2);
             format!("{},{}", s_bool(m1), s_bool(m2))
         }
+        ("prepreuse", [a, b]) => {
+            // bilinearity through ONE prepared value queried repeatedly (P, then -P, then 2P, then P again, and through a
+            // clone taken in between): a memo or any other state inside the prepared value would show up here
+            let (a, b) = (p_fr(a)?, p_fr(b)?);
+            let (p, q) = (g1k(a), g2k(b));
+            let prep = G2Prepared::from(q);
+            let e1 = prep.pairing(&p);
+            let en = prep.pairing(&(-p));
+            let cl = prep.clone();
+            let e2 = cl.pairing(&(p + p));
+            let e1b = prep.pairing(&p);
+            let one = Gt::one();
+            format!("{},{},{},{}", s_bool(en * e1 == one), s_bool(e2 == e1 * e1), s_bool(e1b == e1), s_bool(e1 == pairing(p, q)))
+        }
         ("identity", [o1, o2]) => {
             let (o1, o2) = (p_g1(o1)?, p_g2(o2)?);
             let one = Gt::one();
